@@ -310,3 +310,341 @@ Proof.
 Qed.
 
 End PosProofs.
+
+(* ====================================================================================
+   PART II: the bad-character tables
+   ==================================================================================== *)
+Definition bmp_row_get (o : option (list Z)) (j d : Z) : Z :=
+  match o with Some (x :: row) => bm_gz (x :: row) j | _ => d end.
+
+Lemma bmp_row_get_some : forall r j d, 0 < zlen r -> bmp_row_get (Some r) j d = bm_gz r j.
+Proof. intros [|x r] j d H; [cbn in H; lia | reflexivity]. Qed.
+
+(* what Scan reads for the reject character c (default = the full length) *)
+Definition bmp_ng_view (full : Z) (st : bmneg) (c : Z) : Z :=
+  if c <? 128 then bm_gz (ng_ascii st) c
+  else if (c <=? 65535) && ng_has st then bmp_row_get (ng_uni st (Z.shiftr c 8)) (Z.land c 255) full
+  else full.
+
+Definition bmp_ng_wf (st : bmneg) : Prop :=
+  128 <= zlen (ng_ascii st) /\
+  (forall i r, ng_uni st i = Some r -> zlen r = 256 /\ ng_has st = true) /\
+  (forall r, ng_uni st 0 = Some r -> ng_ascii st = r) /\
+  (ng_uni st 0 = None -> zlen (ng_ascii st) = 128).
+
+Lemma bmp_shiftr8 : forall c, 0 <= c -> Z.shiftr c 8 = c / 256.
+Proof. intros c H. rewrite Z.shiftr_div_pow2 by lia. reflexivity. Qed.
+Lemma bmp_land255 : forall c, 0 <= c -> Z.land c 255 = c mod 256.
+Proof. intros c H. change 255 with (Z.ones 8). rewrite Z.land_ones by lia. reflexivity. Qed.
+
+Lemma bmp_nth_skipn : forall (l : list Z) n j, nth j (skipn n l) 0 = nth (n + j) l 0.
+Proof. induction l as [|x l IH]; intros [|n] j; cbn; try reflexivity; [destruct j; reflexivity | apply IH]. Qed.
+
+Lemma bmp_copy_spec : forall dst src, zlen dst = 256 -> zlen src = 128 ->
+  zlen (bm_copy dst src) = 256 /\
+  forall k, 0 <= k < 256 -> bm_gz (bm_copy dst src) k = if k <? 128 then bm_gz src k else bm_gz dst k.
+Proof.
+  intros dst src Hd Hs. unfold bm_copy, zlen in *.
+  assert (Hf : firstn (length dst) src = src) by (apply firstn_all2; lia). rewrite Hf.
+  split.
+  - rewrite app_length, skipn_length. lia.
+  - intros k Hk. unfold bm_gz. destruct (k <? 128) eqn:E.
+    + rewrite app_nth1 by lia. reflexivity.
+    + rewrite app_nth2 by lia. rewrite bmp_nth_skipn. f_equal. lia.
+Qed.
+
+Lemma bmp_neg_step_big : forall full last st examine ch, 65535 < ch ->
+  bm_neg_step full last st examine ch = Ok None.
+Proof.
+  intros. unfold bm_neg_step. replace (ch <? 128) with false by lia.
+  replace (ch <=? 65535) with false by lia. reflexivity.
+Qed.
+
+Lemma bmp_upd_cell : forall l ch v full, 0 <= ch < zlen l ->
+  exists a', (if bm_gz l ch =? full then bm_set l ch v else Ok l) = Ok a' /\ zlen a' = zlen l /\
+    forall k, 0 <= k -> bm_gz a' k = if (k =? ch) && (bm_gz l ch =? full) then v else bm_gz l k.
+Proof.
+  intros l ch v full Hch. destruct (bm_gz l ch =? full) eqn:E.
+  - destruct (bmp_set_in l ch v Hch) as [a' Hs]. exists a'. split; [exact Hs|].
+    destruct (bmp_set_Ok _ _ _ _ Hs) as (_ & Hl & Hg). split; [exact Hl|].
+    intros k Hk. rewrite Hg by lia. rewrite andb_true_r. reflexivity.
+  - exists l. split; [reflexivity|]. split; [reflexivity|]. intros k Hk. rewrite andb_false_r. reflexivity.
+Qed.
+
+Lemma bmp_neg_step_ascii : forall full last st examine ch, bmp_ng_wf st -> 0 <= ch < 128 ->
+  exists st', bm_neg_step full last st examine ch = Ok (Some st') /\ bmp_ng_wf st' /\
+    forall c, 0 <= c ->
+      bmp_ng_view full st' c = if (c =? ch) && (bmp_ng_view full st ch =? full) then last - examine
+                               else bmp_ng_view full st c.
+Proof.
+  intros full last st examine ch (W1 & W2 & W3 & W4) Hch.
+  unfold bm_neg_step. replace (ch <? 128) with true by lia.
+  rewrite bmp_at_in by lia. cbn [bind].
+  destruct (bmp_upd_cell (ng_ascii st) ch (last - examine) full ltac:(lia)) as (a' & -> & Hl & Hg). cbn [bind].
+  eexists. split; [reflexivity|]. split.
+  - unfold bmp_ng_wf; cbn [ng_ascii ng_has ng_uni].
+    destruct (ng_uni st 0) as [r0|] eqn:E0.
+    + unfold bm_upd. split; [lia|]. split; [|split].
+      * intros i r. destruct (i =? 0) eqn:Ei.
+        -- intros H; inversion H; subst r. destruct (W2 0 r0 E0) as [Hz Hh]. rewrite <- (W3 r0 eq_refl) in Hz.
+           split; [lia | exact Hh].
+        -- apply W2.
+      * intros r. rewrite Z.eqb_refl. intros H; inversion H; reflexivity.
+      * rewrite Z.eqb_refl. discriminate.
+    + split; [lia|]. split; [exact W2|]. split; [intros r H; rewrite E0 in H; discriminate|].
+      intros _. rewrite Hl. exact (W4 eq_refl).
+  - intros c Hc. unfold bmp_ng_view; cbn [ng_ascii ng_has ng_uni]. replace (ch <? 128) with true by lia.
+    destruct (c <? 128) eqn:Ec.
+    + apply Hg. lia.
+    + replace (c =? ch) with false by lia. rewrite andb_false_l.
+      destruct ((c <=? 65535) && ng_has st) eqn:E2; [|reflexivity].
+      destruct (ng_uni st 0) as [r0|] eqn:E0; [|reflexivity].
+      unfold bm_upd. destruct (Z.shiftr c 8 =? 0) eqn:Es; [|reflexivity].
+      assert (Hs0 : Z.shiftr c 8 = 0) by lia. rewrite Hs0, E0.
+      destruct (W2 0 r0 E0) as [Hz _]. pose proof (W3 r0 eq_refl) as Heq.
+      rewrite !bmp_row_get_some by lia. rewrite bmp_shiftr8 in Hs0 by lia. rewrite bmp_land255 by lia.
+      rewrite Hg by (apply Z.mod_pos_bound; lia).
+      assert (Hm : c mod 256 = c) by (apply Z.mod_small; split; [lia|]; apply Z.div_small_iff in Hs0; lia).
+      rewrite Hm. replace (c =? ch) with false by lia. rewrite andb_false_l. rewrite Heq. reflexivity.
+Qed.
+
+Lemma bmp_neg_step_uni : forall full last st examine ch, bmp_ng_wf st -> 128 <= ch <= 65535 ->
+  exists st', bm_neg_step full last st examine ch = Ok (Some st') /\ bmp_ng_wf st' /\
+    forall c, 0 <= c ->
+      bmp_ng_view full st' c = if (c =? ch) && (bmp_ng_view full st ch =? full) then last - examine
+                               else bmp_ng_view full st c.
+Proof.
+  intros full last st examine ch (W1 & W2 & W3 & W4) Hch.
+  unfold bm_neg_step. replace (ch <? 128) with false by lia. replace (ch <=? 65535) with true by lia.
+  rewrite bmp_shiftr8, bmp_land255 by lia.
+  set (i := ch / 256). set (j := ch mod 256).
+  assert (Hi : 0 <= i <= 255) by (unfold i; pose proof (Z.div_pos ch 256); pose proof (Z.div_lt_upper_bound ch 256 256); lia).
+  assert (Hj : 0 <= j < 256) by (unfold j; apply Z.mod_pos_bound; lia).
+  assert (Hij : ch = 256 * i + j) by (unfold i, j; apply Z.div_mod; lia).
+  (* the row (after allocation) and what negativeASCII is then *)
+  assert (Hrow : exists row ascii1,
+            match ng_uni st i with
+            | Some r => (r, ng_ascii st)
+            | None => if i =? 0 then (bm_copy (repeat full 256) (ng_ascii st), bm_copy (repeat full 256) (ng_ascii st))
+                      else (repeat full 256, ng_ascii st)
+            end = (row, ascii1) /\
+            zlen row = 256 /\ 128 <= zlen ascii1 /\
+            (forall c, 0 <= c < 128 -> bm_gz ascii1 c = bm_gz (ng_ascii st) c) /\
+            (i = 0 -> ascii1 = row) /\ (i <> 0 -> ascii1 = ng_ascii st) /\
+            (forall c, 128 <= c <= 65535 -> c / 256 = i -> bm_gz row (c mod 256) = bmp_ng_view full st c)).
+  { assert (Hview : forall c, 128 <= c <= 65535 -> c / 256 = i ->
+                      bmp_ng_view full st c = if ng_has st then bmp_row_get (ng_uni st i) (c mod 256) full else full).
+    { intros c Hc Hci. unfold bmp_ng_view. replace (c <? 128) with false by lia.
+      replace (c <=? 65535) with true by lia. rewrite andb_true_l.
+      rewrite bmp_shiftr8, bmp_land255 by lia. rewrite Hci. reflexivity. }
+    destruct (ng_uni st i) as [r|] eqn:Er.
+    - destruct (W2 i r Er) as [Hz Hh]. exists r, (ng_ascii st). split; [reflexivity|]. split; [exact Hz|].
+      split; [exact W1|]. split; [reflexivity|]. split.
+      + intros Hi0. subst i. rewrite Hi0 in Er. exact (W3 r Er).
+      + split; [reflexivity|]. intros c Hc Hci. rewrite (Hview c Hc Hci), Hh. rewrite bmp_row_get_some by lia. reflexivity.
+    - destruct (i =? 0) eqn:Ei.
+      + assert (Hi0 : i = 0) by lia. rewrite Hi0 in Er.
+        destruct (bmp_copy_spec (repeat full 256) (ng_ascii st)) as [Hcl Hcg];
+          [rewrite bmp_repeat_zlen; reflexivity | exact (W4 Er) |].
+        eexists _, _. split; [reflexivity|]. split; [exact Hcl|]. split; [lia|]. split.
+        * intros c Hc. rewrite Hcg by lia. replace (c <? 128) with true by lia. reflexivity.
+        * split; [reflexivity|]. split; [lia|]. intros c Hc Hci. rewrite (Hview c Hc Hci).
+          assert (Hc256 : 0 <= c < 256) by (rewrite Hi0 in Hci; apply Z.div_small_iff in Hci; lia).
+          assert (Hm : c mod 256 = c) by (apply Z.mod_small; lia).
+          rewrite Hm, Hcg by lia. replace (c <? 128) with false by lia. rewrite bmp_repeat_gz by lia.
+          destruct (ng_has st); reflexivity.
+      + eexists _, _. split; [reflexivity|]. split; [rewrite bmp_repeat_zlen; reflexivity|]. split; [exact W1|].
+        split; [reflexivity|]. split; [lia|]. split; [reflexivity|]. intros c Hc Hci. rewrite (Hview c Hc Hci).
+        rewrite bmp_repeat_gz by (pose proof (Z.mod_pos_bound c 256); lia). destruct (ng_has st); reflexivity. }
+  destruct Hrow as (row & ascii1 & -> & Hz & Ha1 & Ha2 & Ha3 & Ha4 & Hrv).
+  rewrite bmp_at_in by lia. cbn [bind].
+  destruct (bmp_upd_cell row j (last - examine) full ltac:(lia)) as (row' & -> & Hl' & Hg'). cbn [bind].
+  eexists. split; [reflexivity|]. split.
+  - unfold bmp_ng_wf; cbn [ng_ascii ng_has ng_uni]. unfold bm_upd. split; [|split; [|split]].
+    + destruct (i =? 0) eqn:Ei; lia.
+    + intros k r. destruct (k =? i) eqn:Ek.
+      * intros H; inversion H; subst r. split; [lia | reflexivity].
+      * intros H. destruct (W2 k r H) as [Hzr _]. split; [exact Hzr | reflexivity].
+    + intros r. destruct (0 =? i) eqn:E0.
+      * intros H; inversion H; subst r. replace (i =? 0) with true by lia. reflexivity.
+      * intros H. replace (i =? 0) with false by lia. rewrite Ha4 by lia. exact (W3 r H).
+    + destruct (0 =? i) eqn:E0; [discriminate|]. intros H. replace (i =? 0) with false by lia.
+      rewrite Ha4 by lia. exact (W4 H).
+  - intros c Hc. pose proof (Hrv ch Hch eq_refl) as Hvch. fold j in Hvch. rewrite <- Hvch.
+    unfold bmp_ng_view at 1; cbn [ng_ascii ng_has ng_uni].
+    destruct (c <? 128) eqn:Ec.
+    + replace (c =? ch) with false by lia. rewrite andb_false_l.
+      unfold bmp_ng_view. rewrite Ec. destruct (i =? 0) eqn:Ei.
+      * rewrite Hg' by lia. replace (c =? j) with false by lia. rewrite andb_false_l.
+        rewrite <- Ha3 by lia. apply Ha2. lia.
+      * apply Ha2. lia.
+    + destruct (c <=? 65535) eqn:Ec2; cbn [andb].
+      2:{ replace (c =? ch) with false by lia. rewrite andb_false_l. unfold bmp_ng_view. rewrite Ec, Ec2. reflexivity. }
+      rewrite bmp_shiftr8, bmp_land255 by lia. unfold bm_upd.
+      destruct (c / 256 =? i) eqn:Eci.
+      * assert (Hci : c / 256 = i) by lia. rewrite bmp_row_get_some by lia.
+        rewrite Hg' by (pose proof (Z.mod_pos_bound c 256); lia).
+        assert (Hcc : c = 256 * i + c mod 256) by (rewrite <- Hci; apply Z.div_mod; lia).
+        rewrite (Hrv c ltac:(lia) Hci).
+        destruct (c mod 256 =? j) eqn:Ecj.
+        -- replace (c =? ch) with true by lia. reflexivity.
+        -- replace (c =? ch) with false by lia. reflexivity.
+      * assert (Hne : c <> ch) by (intros ->; unfold i in Eci; lia).
+        replace (c =? ch) with false by lia. rewrite andb_false_l.
+        unfold bmp_ng_view. rewrite Ec, Ec2. rewrite andb_true_l. rewrite bmp_shiftr8, bmp_land255 by lia.
+        destruct (ng_has st) eqn:Eh; [reflexivity|].
+        destruct (ng_uni st (c / 256)) as [r|] eqn:Er; [|reflexivity].
+        destruct (W2 _ _ Er) as [_ Hh]. congruence.
+Qed.
+
+Lemma bmp_neg_step_spec : forall full last st examine ch, bmp_ng_wf st -> 0 <= ch <= 65535 ->
+  exists st', bm_neg_step full last st examine ch = Ok (Some st') /\ bmp_ng_wf st' /\
+    forall c, 0 <= c ->
+      bmp_ng_view full st' c = if (c =? ch) && (bmp_ng_view full st ch =? full) then last - examine
+                               else bmp_ng_view full st c.
+Proof.
+  intros full last st examine ch W Hch. destruct (Z_lt_ge_dec ch 128).
+  - apply bmp_neg_step_ascii; [exact W | lia].
+  - apply bmp_neg_step_uni; [exact W | lia].
+Qed.
+
+Ltac bmp_dir2 := unfold bm_last, bm_bf, bm_bump in *.
+
+Section NegProofs.
+Variable pat : list Z.
+Local Notation M := (zlen pat).
+
+(* the advance a recorded for the rune c after the first k pattern positions (counted from the tail):
+   its size A = |a| is the distance from the tail to the occurrence of c nearest to the tail, or the whole
+   length *)
+Definition bmp_neg_inv (rtl : bool) (k : Z) (a c : Z) : Prop :=
+  (a * bm_bump rtl = M \/ 0 <= a * bm_bump rtl < k) /\
+  (a * bm_bump rtl < M -> bmp_p pat (bm_last rtl M - a) = c) /\
+  (forall j, 0 <= j -> j < a * bm_bump rtl -> j < k -> bmp_p pat (bm_last rtl M - j * bm_bump rtl) <> c).
+
+Lemma bmp_neg_loop_spec : forall rtl fuel k examine st,
+  let full := bm_last rtl M - bm_bf rtl M in
+  examine = bm_last rtl M - k * bm_bump rtl -> 0 <= k <= M -> bmp_ng_wf st ->
+  (forall c, 0 <= c -> bmp_neg_inv rtl k (bmp_ng_view full st c) c) ->
+  (forall i, 0 <= i < M -> 0 <= bmp_p pat i) ->
+  (Z.to_nat (M - k) < fuel)%nat ->
+  exists r, bm_neg_loop pat full (bm_last rtl M) (bm_bf rtl M) (bm_bump rtl) fuel examine st = Ok r /\
+    match r with
+    | None => exists i, 0 <= i < M /\ 65535 < bmp_p pat i
+    | Some st' => bmp_ng_wf st' /\ forall c, 0 <= c -> bmp_neg_inv rtl M (bmp_ng_view full st' c) c
+    end.
+Proof.
+  intros rtl fuel. induction fuel as [|f IH]; intros k examine st full He Hk W Hinv Hnn Hf; [lia|].
+  cbn [bm_neg_loop].
+  destruct (examine =? bm_bf rtl M) eqn:Ebf.
+  - assert (k = M) by (bmp_dir2; destruct rtl; lia). subst k. exists (Some st). split; [reflexivity|]. split; assumption.
+  - assert (Hex : 0 <= examine < M) by (bmp_dir2; destruct rtl; lia).
+    assert (HkM : k < M) by (bmp_dir2; destruct rtl; lia).
+    rewrite (bmp_at_in pat examine) by lia. cbn [bind]. fold (bmp_p pat examine).
+    pose proof (Hnn examine Hex) as Hch0. set (ch := bmp_p pat examine) in *.
+    destruct (Z_le_gt_dec ch 65535) as [Hle|Hgt].
+    2:{ rewrite bmp_neg_step_big by lia. cbn [bind]. exists None. split; [reflexivity|]. exists examine. split; [exact Hex | fold ch; lia]. }
+    destruct (bmp_neg_step_spec full (bm_last rtl M) st examine ch W ltac:(lia)) as (st' & -> & W' & Hv').
+    cbn [bind]. apply (IH (k + 1)); [lia | lia | exact W' | | exact Hnn | lia].
+    intros c Hc. fold full. rewrite (Hv' c Hc). destruct (Hinv c Hc) as (I1 & I2 & I3).
+    assert (Hfull : full * bm_bump rtl = M) by (unfold full; bmp_dir2; destruct rtl; lia).
+    destruct ((c =? ch) && (bmp_ng_view full st ch =? full)) eqn:E.
+    + assert (c = ch) by lia. subst c. assert (Hvf : bmp_ng_view full st ch = full) by lia.
+      rewrite Hvf in I3. replace (bm_last rtl M - examine) with (k * bm_bump rtl) by lia.
+      assert (Hkk : k * bm_bump rtl * bm_bump rtl = k) by (bmp_dir2; destruct rtl; lia).
+      unfold bmp_neg_inv. rewrite Hkk. split; [right; lia|]. split.
+      * intros _. replace (bm_last rtl M - k * bm_bump rtl) with examine by lia. reflexivity.
+      * intros j Hj1 Hj2 Hj3. apply I3; lia.
+    + unfold bmp_neg_inv. split; [destruct I1; [left; assumption | right; lia]|]. split; [exact I2|].
+      intros j Hj1 Hj2 Hj3. assert (Hcase : j < k \/ j = k) by lia. destruct Hcase as [Hlt| ->]; [apply I3; lia|].
+      replace (bm_last rtl M - k * bm_bump rtl) with examine by lia. fold ch.
+      intros Heq. subst c. rewrite Z.eqb_refl, andb_true_l in E.
+      assert (Hne : bmp_ng_view full st ch <> full) by lia.
+      destruct I1 as [I1|I1]; [|lia].
+      apply Hne. clear - I1 Hfull. bmp_dir2. destruct rtl; lia.
+Qed.
+
+End NegProofs.
+
+(* ====================================================================================
+   newBmPrefix: both tables
+   ==================================================================================== *)
+Definition bmp_neg_ok (t : bmtab) : Prop :=
+  forall c, 0 <= c ->
+    exists r, bm_neg_lookup t c = Ok r /\
+      bmp_neg_inv (bm_pattern t) (bm_rtl t) (zlen (bm_pattern t))
+                  (match r with Some v => v | None => bm_defadv t end) c.
+
+Definition bmp_tab_ok (t : bmtab) : Prop :=
+  1 <= zlen (bm_pattern t) /\ bmp_pos_ok (bm_pattern t) (bm_rtl t) (bm_positive t) /\ bmp_neg_ok t.
+
+Lemma bmp_lookup_view : forall t st full,
+  bm_negascii t = ng_ascii st -> bm_has_uni t = ng_has st -> bm_uni t = ng_uni st -> bmp_ng_wf st ->
+  forall c, 0 <= c ->
+    exists r, bm_neg_lookup t c = Ok r /\ (match r with Some v => v | None => full end) = bmp_ng_view full st c.
+Proof.
+  intros t st full Ha Hh Hu (W1 & W2 & W3 & W4) c Hc.
+  unfold bm_neg_lookup, bmp_ng_view. rewrite Ha, Hh, Hu.
+  destruct (c <? 128) eqn:Ec.
+  - rewrite bmp_at_in by lia. cbn [bind]. eexists. split; reflexivity.
+  - destruct ((c <=? 65535) && ng_has st) eqn:E2; [|eexists; split; reflexivity].
+    destruct (ng_uni st (Z.shiftr c 8)) as [r|] eqn:Er; [|eexists; split; reflexivity].
+    destruct (W2 _ _ Er) as [Hz _]. destruct r as [|x row]; [cbn in Hz; lia|].
+    rewrite bmp_land255 by lia. rewrite bmp_at_in by (pose proof (Z.mod_pos_bound c 256); lia).
+    cbn [bind]. eexists. split; reflexivity.
+Qed.
+
+Section NewProofs.
+Variable lower : Z -> Z.
+
+Lemma bmp_fold_map : forall (ci : bool) (pattern : list Z),
+  (if ci then map lower pattern else pattern) = map (bm_fold lower ci) pattern.
+Proof. intros [|] pattern; unfold bm_fold; [reflexivity | symmetry; apply map_id]. Qed.
+
+Theorem bmp_new_ok : forall pattern ci rtl, pattern <> [] ->
+  (forall x, In x pattern -> 0 <= bm_fold lower ci x) ->
+  exists r, bm_new lower pattern ci rtl = Ok r /\
+    match r with
+    | None => exists x, In x pattern /\ 65535 < bm_fold lower ci x
+    | Some t => bm_pattern t = map (bm_fold lower ci) pattern /\ bm_rtl t = rtl /\ bm_ci t = ci /\ bmp_tab_ok t
+    end.
+Proof.
+  intros pattern ci rtl Hne Hnn. unfold bm_new. rewrite bmp_fold_map.
+  set (pat := map (bm_fold lower ci) pattern).
+  assert (HM : 1 <= zlen pat).
+  { unfold pat, zlen. rewrite map_length. destruct pattern; [contradiction | cbn; lia]. }
+  assert (Hin : forall i, 0 <= i < zlen pat -> exists x, In x pattern /\ bmp_p pat i = bm_fold lower ci x).
+  { intros i Hi. assert (Hi' : In (bmp_p pat i) pat) by (unfold bmp_p, bm_gz; apply nth_In; unfold zlen in Hi; lia).
+    unfold pat in Hi' at 2. apply in_map_iff in Hi'. destruct Hi' as (x & Hx1 & Hx2). exists x. split; [exact Hx2 | symmetry; exact Hx1]. }
+  destruct (bmp_positive_table_ok pat rtl HM) as (pos & -> & Hpos). cbn [bind].
+  set (full := bm_last rtl (zlen pat) - bm_bf rtl (zlen pat)).
+  set (st0 := {| ng_ascii := repeat full 128; ng_has := false; ng_uni := fun _ => None; ng_low := 127; ng_high := 0 |}).
+  destruct (bmp_neg_loop_spec pat rtl (S (length pat)) 0 (bm_last rtl (zlen pat)) st0) as (r & Hr & Hspec).
+  - lia.
+  - lia.
+  - unfold st0, bmp_ng_wf; cbn [ng_ascii ng_has ng_uni]. rewrite bmp_repeat_zlen.
+    split; [lia|]. split; [intros i r H; discriminate|]. split; [intros r H; discriminate | intros _; lia].
+  - intros c Hc. fold full.
+    assert (Hv : bmp_ng_view full st0 c = full).
+    { unfold bmp_ng_view, st0; cbn [ng_ascii ng_has ng_uni]. destruct (c <? 128) eqn:E; [apply bmp_repeat_gz; lia|].
+      rewrite andb_false_r. reflexivity. }
+    rewrite Hv. assert (Hfull : full * bm_bump rtl = zlen pat) by (unfold full; bmp_dir2; destruct rtl; lia).
+    unfold bmp_neg_inv. rewrite Hfull. split; [left; reflexivity|]. split; [lia|]. intros j H1 H2 H3. lia.
+  - intros i Hi. destruct (Hin i Hi) as (x & Hx & ->). apply Hnn. exact Hx.
+  - unfold zlen. lia.
+  - fold full in Hr. fold st0 in Hr. rewrite Hr. cbn [bind]. destruct r as [st|].
+    + eexists. split; [reflexivity|]. cbn [bm_pattern bm_rtl bm_ci bm_positive].
+      split; [reflexivity|]. split; [reflexivity|]. split; [reflexivity|].
+      destruct Hspec as [W Hinv]. split; [exact HM|]. split; [exact Hpos|].
+      intros c Hc.
+      destruct (bmp_lookup_view {| bm_pattern := pat; bm_positive := pos; bm_negascii := ng_ascii st; bm_has_uni := ng_has st;
+                                   bm_uni := ng_uni st; bm_low := ng_low st; bm_high := ng_high st; bm_rtl := rtl; bm_ci := ci |}
+                                st full eq_refl eq_refl eq_refl W c Hc) as (r & Hl & Hv).
+      exists r. split; [exact Hl|]. cbn [bm_pattern bm_rtl].
+      replace (bm_defadv _) with full by (unfold full, bm_defadv; cbn [bm_pattern bm_rtl]; bmp_dir2; destruct rtl; lia).
+      rewrite Hv. apply Hinv. exact Hc.
+    + exists None. split; [reflexivity|]. destruct Hspec as (i & Hi & Hgt). destruct (Hin i Hi) as (x & Hx & Heq).
+      exists x. split; [exact Hx | lia].
+Qed.
+
+End NewProofs.
